@@ -55,6 +55,15 @@ def gen(chk, mpmath, rng):
         mp.prec = p; X = sf.q2m(mp, x); y1 = getattr(mp, rep["f"])(X)
         mp.prec = 2 * p + 40; y2 = getattr(mp, rep["f"])(X); mp.prec = p
         yield sf.close(y1, y2, 8, p), {"pinned": k["key"], "key": "samereal/%s/p>=600" % rep["f"], "f": rep["f"], "args": [rep["x"]], "p": p, "what": "pinned representative"}
+    # precision sweep: the gamma kernels choose Taylor / Stirling / recurrence regimes and series lengths from the working precision,
+    # so every precision band is visited at a few fixed arguments (before anything else fills the coefficient caches)
+    step = chk.pick(61, 17)
+    for fname in ("gamma", "loggamma", "rgamma"):
+        # ... arguments far from the integers (where the Taylor polynomials about integers are weakest) but not the exact half-integers
+        xs = [Fr(2 * rng.randint(1, 12) + 1, 2) + rng.choice([1, -1]) * Fr(1, 64), Fr(rng.randint(3, 40), 8), Fr(rng.randint(41, 200), 8) * rng.choice([1, -1]) + Fr(1, 3)]
+        for P in range(40 + rng.randint(0, step - 1), 1400, step):
+            for item in sf.sweep(mpmath, fname + "-precision", sf.F1(fname), [xs[0], rng.choice(xs[1:])], P, 8, PROP):
+                yield item
     for item in sf.samereal(chk, mpmath, rng, TABLE, 8, chk.pick(300, 12000), PROP, hiprec=0.2):
         yield item
     for i in range(chk.pick(260, 8000)):
